@@ -54,7 +54,7 @@ def generate(L):
     if not re.search(r"fs::write\(\s*&checkpoints_file", wa):
         raise L.GenError("write_all_checkpoints: plain fs::write of checkpoints_file not found")
     ra = L.find_fn(src, "read_all_checkpoints", rel)
-    if "fs::read_to_string(&checkpoints_file)" not in ra:
+    if "fs::read_to_string(&checkpoints_file)" not in ra and "fs::read(&checkpoints_file)" not in ra:
         raise L.GenError("read_all_checkpoints: read_to_string(&checkpoints_file) not found")
     cp_locked = any(LOCK_TOKENS.search(x) for x in (ac, wa, ra))
     wi = L.find_fn(src, "write_initial_attributions", rel)
